@@ -77,10 +77,22 @@ type Harness interface {
 var registry = map[string]Harness{}
 var propHarness = map[string][]string{}
 
+// Weighted is optional: a harness that wants more or less than an equal share
+// of a property's runs says how many slots of the rotation it takes.
+type Weighted interface {
+	Weight(prop string) int
+}
+
 func Register(h Harness) {
 	registry[h.Name()] = h
 	for _, p := range h.Props() {
-		propHarness[p] = append(propHarness[p], h.Name())
+		w := 1
+		if wh, ok := h.(Weighted); ok {
+			w = wh.Weight(p)
+		}
+		for i := 0; i < w; i++ {
+			propHarness[p] = append(propHarness[p], h.Name())
+		}
 	}
 }
 
